@@ -606,10 +606,63 @@ def _(eng, ci, a, sp):
     return Struct('SeqIter', [Vec([comp_value(c) for c in cs]), 0, 'val'])
 
 
+def comps_spans(eng, items):
+    """components with their start offsets: [(kind, bytes, start)]"""
+    out = []
+    n = len(items)
+    i = 0
+    has_root = n > 0 and byte_is(eng, items[0], 47)
+    if has_root:
+        out.append(('RootDir', (47,), 0))
+    first = True
+    while i < n:
+        if byte_is(eng, items[i], 47):
+            i += 1
+            continue
+        j = i
+        while j < n and not byte_is(eng, items[j], 47):
+            j += 1
+        c = tuple(items[i:j])
+        if len(c) == 1 and byte_is(eng, c[0], 46):
+            if first and not has_root:
+                out.append(('CurDir', (46,), i))
+        elif len(c) == 2 and byte_is(eng, c[0], 46) and byte_is(eng, c[1], 46):
+            out.append(('ParentDir', (46, 46), i))
+        else:
+            out.append(('Normal', c, i))
+        first = False
+        i = j
+    return out
+
+
 @S('Path::iter')
 def _(eng, ci, a, sp):
-    cs = comps(eng, path_items(eng, a[0]))
-    return Struct('SeqIter', [Vec([Bytes(c[1], 'OsStr') for c in cs]), 0, 'val'])
+    items = path_items(eng, a[0])
+    return Struct('PathIter', [items, comps_spans(eng, items), 0])
+
+
+@S('<PathIter as Iterator>::next')
+def _(eng, ci, a, sp):
+    it = deref_all(a[0])
+    items, spans, pos = it.f
+    if pos >= len(spans):
+        return none()
+    it.f[2] = pos + 1
+    return some(Bytes(spans[pos][1], 'OsStr'))
+
+
+@S('Iter::as_path', 'path::Iter::as_path')
+def _(eng, ci, a, sp):
+    it = deref_all(a[0])
+    items, spans, pos = it.f
+    if pos >= len(spans):
+        return Bytes((), 'Path')
+    start = spans[pos][2]
+    rest = list(items[start:])
+    # trailing separators / '.' components are not part of the remaining path in std's Components::as_path
+    while len(rest) > 1 and isinstance(rest[-1], int) and rest[-1] == 47:
+        rest.pop()
+    return Bytes(rest, 'Path')
 
 
 @S('Component::as_os_str')
